@@ -26,3 +26,10 @@ pub mod light_aggregator;
 // module; an external harness needs the type to produce such inner proofs.
 #[cfg(all(midnight_zk_verif, not(feature = "truncated-challenges")))]
 pub use light_fiat_shamir::LightPoseidonFS;
+
+/// Verification hook (off unless `--cfg midnight_zk_verif`): the inner-product
+/// argument used by the light aggregator.
+#[cfg(all(midnight_zk_verif, not(feature = "truncated-challenges")))]
+pub mod verif_ipa {
+    pub use crate::inner_product_argument::{ipa_prove, ipa_verify};
+}
